@@ -20,7 +20,7 @@ func C02(c *Ctx) {
 	r.Explain = "Structural clauses of 'DHCP servers never bind one address to two clients': (v4) the address a REQUEST names reaches the lease record / the ACK only on paths where it was compared equal with the client's existing lease or confirmed by the ownership oracle (path-sensitive taint with sanitisers; pool membership is not a sanitiser); every NAK is returned immediately; the OFFERed address comes from the lease, the pool's allocator or the central allocator only; a DECLINE quarantines only the declining client's own address and removes it from both the owner map and the free list; free lists exclude network, broadcast and gateway; (v6) bindings are keyed by the DUID taken from the message's Client-ID option and a declined address must not go back to the free list.  Message interleavings, time and INIT-REBOOT semantics are not decided."
 	r.Rule("C02.A1.requestProvenance", "handleRequest stores / acknowledges the client-named address only on paths where it equals the existing lease's address or addressOfferedTo(mac, ip, pool) held", 3)
 	r.Rule("C02.A2.nakReturns", "every buildNAK result is returned at once (no fall-through to the ACK path)", 4)
-	r.Rule("C02.A3.declineQuarantine", "DECLINE quarantines only the address leased to the declining client; quarantining removes the address from the owner map and the free list and records it as unavailable", 4)
+	r.Rule("C02.A3.declineQuarantine", "DECLINE quarantines only the address leased to the declining client; quarantining removes the address from the owner map and the free list and records it as unavailable; nothing but slices of the free list itself is appended to it on that path", 5)
 	r.Rule("C02.A4.v6DeclineNotFreed", "a DHCPv6 DECLINE does not return the declined address/prefix to the free pool", 1)
 	r.Rule("C02.A5.v6KeyedByClientID", "DHCPv6 bindings are looked up and allocated under the DUID of the message's Client-ID option", 5)
 	r.Rule("C02.A6.offerSource", "the address put into an OFFER comes from the client's unexpired lease, the pool allocator or the central allocator", 1)
@@ -378,6 +378,7 @@ func c02Decline(c *Ctx) {
 			}
 		})
 		r.Check("C02.A3.declineQuarantine", load.ShortFunc(f), "removed from the free list", c.P.Pos(f.Pos()), okFree, "the declined address stays in the free list")
+		c02NoPutBack(c, f)
 	}
 }
 
